@@ -1,21 +1,25 @@
-(* C05 - model of the un-guarded alias chasing of src/validator/mod.rs:772-1177
-   (is_ident_null_data_type ... is_ident_byte_string_data_type, ident_matches_bool_value,
-   ident_accepts_bignum_tag) and src/validator/control.rs:18-68.  Every one of these helpers is
+(* C05 - model of the alias chasing of src/validator/mod.rs (is_ident_null_data_type ...
+   is_ident_byte_string_data_type, ident_matches_bool_value, ident_accepts_bignum_tag) and
+   src/validator/control.rs (string_literals_from_ident, numeric_values_from_ident), as repaired by
+   commit d9284e7.  Every one of these helpers is
 
      fn is_ident_X(cddl, ident) -> bool {
        if let Token::X.. = lookup_ident(ident.ident) { return true; }
+       let Some(_guard) = AliasGuard::enter(ident) else { return false; };   // name already being resolved
        cddl.rules.iter().any(|r| match r {
          Rule::Type { rule, .. } if rule.name == *ident =>
            rule.value.type_choices.iter().any(|tc|
              if let Type2::Typename { ident, .. } = &tc.type1.type2 { is_ident_X(cddl, ident) } else { false }),
          _ => false })
-     }
+     }                                                                       // guard dropped: name popped
 
    so the only thing that matters about a schema is, per type rule and per type choice, whether
    the FIRST type2 of the choice is a bare name (an operator after it is ignored) and which one.
    The helpers differ in the set of prelude names that answer `true` at once ([hit]).
-   Recursion in the code is unbounded (call stack); here it is fuel, and [OutOfFuel] is the
-   model's name for "the real call does not return" (stack overflow).
+   AliasGuard keeps the names on the current call path ([active]); a name met again on its own
+   path answers `false`.  Recursion in the code is the call stack; here it is fuel, and
+   [OutOfFuel] is the model's name for "the real call does not return".  Before d9284e7 there
+   was no guard and `a = b .size 3` / `b = a` overflowed the stack.
    No proofs in this file. *)
 From Cddl Require Import Base.Bytes.
 Open Scope N_scope.
@@ -40,18 +44,23 @@ Fixpoint any_o {A} (f : A -> outcome) (l : list A) : outcome :=
 
 Definition memN (x : N) (l : list N) : bool := existsb (N.eqb x) l.
 
-Fixpoint chase (hit : list name) (fuel : nat) (e : env) (n : name) : outcome :=
+Fixpoint chase_g (hit : list name) (fuel : nat) (active : list name) (e : env) (n : name) : outcome :=
   match fuel with
   | O => OutOfFuel
   | S f =>
-    if memN n hit then Yes else
+    if memN n hit then Yes
+    else if memN n active then No                      (* AliasGuard::enter(ident) = None *)
+    else
     any_o (fun r : name * body =>
              if fst r =? n
-             then any_o (fun a => match a with Alias k => chase hit f e k | Other => No end) (snd r)
+             then any_o (fun a => match a with Alias k => chase_g hit f (n :: active) e k | Other => No end) (snd r)
              else No) e
   end.
 
-(* `is_ident_A(..) || is_ident_B(..) || ...` as written at the call sites (json.rs:1484-2218) *)
+(* a top-level call: nothing is being resolved yet *)
+Definition chase (hit : list name) (fuel : nat) (e : env) (n : name) : outcome := chase_g hit fuel [] e n.
+
+(* `is_ident_A(..) || is_ident_B(..) || ...` as written at the call sites (json.rs visit_control_operator) *)
 Fixpoint chase_seq (hits : list (list name)) (fuel : nat) (e : env) (n : name) : outcome :=
   match hits with
   | [] => No
@@ -82,7 +91,8 @@ Fixpoint kahn (rounds : nat) (e : env) (s : list name) : list name :=
 Definition acyclic_alias (e : env) : bool :=
   forallb (fun n => memN n (kahn (length e) e [])) (names e).
 
-Definition chase_fuel (e : env) : nat := S (length e).
+(* enough for every environment: each nested call puts one more rule name on the active path *)
+Definition chase_fuel (e : env) : nat := S (S (length e)).
 
 (* ---------- cost: number of calls when no name hits (no short cut of `any`) ---------- *)
 (* calls e n = number of calls of is_ident_X made by is_ident_X(n), explored to depth |e|
@@ -111,7 +121,7 @@ Definition outcome_code (o : outcome) : N :=
   match o with Yes => 89 | No => 78 | OutOfFuel => 79 end.       (* Y N O *)
 Definition bit_code (b : bool) : N := if b then 49 else 48.
 
-(* "<acyclic> <outcome of chase_seq with fuel |e|+1, or ? when the model itself would need more
+(* "<acyclic> <outcome of chase_seq with fuel |e|+2, or ? when the model itself would need more
    than 2^20 calls> <hex calls>" *)
 Definition chase_report (hits : list (list name)) (e : env) (n : name) : list N :=
   let c := calls e n in
